@@ -108,7 +108,7 @@ fn gen_sparse(ctx: &mut Context, rng: &mut Rng) -> TransitionSystem {
                     }
                 };
                 let arrs: Vec<ExprRef> = pool.iter().copied().filter(|s| matches!(s.get_type(ctx), Type::Array(a) if a.data_width == w)).collect();
-                match rng.below(9) {
+                match rng.below(11) {
                     0 | 1 => leaf(ctx, rng),
                     2 => {
                         let a = leaf(ctx, rng);
@@ -154,6 +154,39 @@ fn gen_sparse(ctx: &mut Context, rng: &mut Rng) -> TransitionSystem {
                             *rng.pick(&idxs)
                         };
                         ctx.array_read(m, i)
+                    }
+                    8 => {
+                        let a = leaf(ctx, rng);
+                        let b = leaf(ctx, rng);
+                        match rng.below(5) {
+                            0 => ctx.div(a, b),
+                            1 => ctx.signed_div(a, b),
+                            2 => ctx.remainder(a, b),
+                            3 => ctx.signed_remainder(a, b),
+                            _ => ctx.signed_mod(a, b),
+                        }
+                    }
+                    9 if w == 1 => {
+                        // comparison of two arrays (ArrayEqual) when an array symbol is around
+                        let all_arrs: Vec<ExprRef> = pool.iter().copied().filter(|s| matches!(s.get_type(ctx), Type::Array(_))).collect();
+                        if all_arrs.is_empty() {
+                            leaf(ctx, rng)
+                        } else {
+                            let m = *rng.pick(&all_arrs);
+                            let t = m.get_array_type(ctx).unwrap();
+                            let d = {
+                                let v = lit_value(rng, t.data_width);
+                                ctx.bv_lit(&v)
+                            };
+                            let other = if rng.chance(1, 2) {
+                                ctx.array_const(d, t.index_width)
+                            } else {
+                                let iv = lit_value(rng, t.index_width);
+                                let i = ctx.bv_lit(&iv);
+                                ctx.array_store(m, i, d)
+                            };
+                            ctx.equal(m, other)
+                        }
                     }
                     _ => {
                         let a = leaf(ctx, rng);
@@ -252,6 +285,9 @@ fn gen_case(rng: &mut Rng, stats: &mut Stats, args: &Args) -> Case {
         cfg.max_inputs = rng.range(0, 4);
         cfg.max_depth = rng.range(1, 3) as u32;
         cfg.max_outputs = 2;
+        // the division family is not implemented by patronus' evaluator but has a meaning in Spec/Eval.v,
+        // and the cone analysis must traverse it like every other operator
+        cfg.div_rem = rng.chance(1, 3);
         if rng.chance(1, 5) {
             // wider values: the cone is syntactic, but the perturbation oracle evaluates the semantics
             cfg.widths = vec![1, 4, 8, 16, 33, 65];
@@ -348,7 +384,18 @@ fn gen_case(rng: &mut Rng, stats: &mut Stats, args: &Args) -> Case {
         }
     }
     let _ = args;
-    stats.bump("kind", &kind);
+    {
+        let mut parts = kind.split('+');
+        stats.bump("generator", parts.next().unwrap_or("?"));
+        let mut any = false;
+        for t in parts {
+            stats.bump("twist", t);
+            any = true;
+        }
+        if !any {
+            stats.bump("twist", "(none)");
+        }
+    }
     Case { ctx, sys, kind, extra_roots, trials: None }
 }
 
@@ -482,6 +529,11 @@ fn run_case(id: &str, case: Case, rng: &mut Rng, stats: &mut Stats, n_trials: u6
             "operator"
         };
         stats.bump("root_kind", rk);
+        {
+            let d = dump_expr(&ctx, *r);
+            let op = d[1..].split(' ').next().unwrap_or("?").to_string();
+            stats.bump("root_op", &op);
+        }
         if let (Ok(f), Ok(i), Ok(c)) = (&full, &init, &comb) {
             stats.bump("cone_size_full", &format!("{}", f.len()));
             stats.bump("cone_size_init", &format!("{}", i.len()));
